@@ -117,9 +117,63 @@ func genObject(t *rapid.T, depth int, o docOpts) interface{} {
 	return m
 }
 
+// sizes around the thresholds a developer might plausibly introduce (small-size fast
+// paths, buffers, chunking, sort cut-offs)
+var thresholdSizes = []int{7, 8, 9, 11, 12, 13, 15, 16, 17, 19, 20, 21, 24, 31, 32, 33, 40, 41, 63, 64, 65, 100, 127, 128, 129, 200, 255, 256, 257}
+
+func bigSize(t *rapid.T, label string) int { return thresholdSizes[uni(t, len(thresholdSizes), label)] }
+
+func bigString(t *rapid.T, n int) string {
+	unit := []string{"a", "é", "𝒳", "ab", "x y", "%"}[uni(t, 6, "bigStrUnit")]
+	var sb strings.Builder
+	for i := 0; sb.Len() < n; i++ {
+		sb.WriteString(unit)
+		if i%7 == 6 {
+			sb.WriteString(strconv.Itoa(i))
+		}
+	}
+	return sb.String()
+}
+
+// genBigDoc: an object whose members include one big array, one big object and one
+// long string (sizes around typical thresholds), plus ordinary small members.
+func genBigDoc(t *rapid.T) interface{} {
+	n := bigSize(t, "bigArr")
+	arr := make([]interface{}, n)
+	kind := uni(t, 5, "bigArrKind")
+	for i := range arr {
+		switch kind {
+		case 0:
+			arr[i] = float64((i * 7) % 23)
+		case 1:
+			arr[i] = []string{"b", "a", "é", "", "c"}[i%5] + strconv.Itoa(i%9)
+		case 2:
+			arr[i] = map[string]interface{}{"a": float64(n - i), "b": []string{"x", "y", "é"}[i%3], "c": float64(i % 4), "d": []interface{}{float64(i), float64(i % 3)}}
+		case 3:
+			if i%5 == 2 {
+				arr[i] = nil
+			} else {
+				arr[i] = []interface{}{float64(i), []interface{}{float64(i % 2)}}
+			}
+		default:
+			arr[i] = genScalar(t)
+		}
+	}
+	m := bigSize(t, "bigObj")
+	obj := map[string]interface{}{}
+	for i := 0; i < m; i++ {
+		obj["k"+strconv.Itoa(i)] = float64(i % 11)
+	}
+	o := docOpts{maxDepth: 3, maxWidth: 3}
+	return map[string]interface{}{"a": arr, "b": obj, "c": bigString(t, bigSize(t, "bigStr")), "d": genValue(t, 1, o)}
+}
+
 // genDoc draws a document: mostly objects/arrays at the root, every type possible.
 func genDoc(t *rapid.T) interface{} {
 	o := docOpts{maxDepth: 4, maxWidth: 4}
+	if uni(t, 12, "bigDoc") == 0 {
+		return genBigDoc(t)
+	}
 	if uni(t, 10, "rootScalar") == 0 {
 		return genScalar(t)
 	}
@@ -451,6 +505,9 @@ func (g *exprGen) call(cur interface{}, depth int) []string {
 	nargs := len(sig.Params)
 	if sig.Variadic {
 		nargs += g.n(3, "extraArgs")
+		if g.pct(4, "manyArgs") {
+			nargs = thresholdSizes[g.n(12, "manyArgsN")]
+		}
 	}
 	if g.pct(4, "badArity") {
 		nargs = g.n(4, "arity")
@@ -516,6 +573,18 @@ func (g *exprGen) keyExpr(elem interface{}, depth int) []string {
 
 func (g *exprGen) multiselect(cur interface{}, depth int, afterDot bool) []string {
 	n := 1 + g.n(3, "msLen")
+	if g.pct(2, "bigMs") {
+		n = thresholdSizes[g.n(12, "bigMsLen")]
+		// many members: keep each one small
+		out := []string{"["}
+		for i := 0; i < n; i++ {
+			if i > 0 {
+				out = append(out, ",")
+			}
+			out = append(out, g.chain(cur, g.f.maxDepth, 1)...)
+		}
+		return append(out, "]")
+	}
 	if g.pct(50, "msHash") {
 		out := []string{"{"}
 		used := map[string]bool{}
@@ -770,10 +839,11 @@ func (g *exprGen) spellInt(i int) string {
 		return strconv.Itoa(i)
 	}
 	pad := []string{"0", "00", "000"}[g.n(3, "padLen")]
+	digits := strconv.Itoa(i)
 	if i < 0 {
-		return "-" + pad + strconv.Itoa(-i)
+		return "-" + pad + digits[1:] // (not -i: the smallest integer has no positive counterpart)
 	}
-	return pad + strconv.Itoa(i)
+	return pad + digits
 }
 
 func stepField(v interface{}, k string) interface{} {
